@@ -274,6 +274,19 @@ static void famSpace(vf::Runner& R, const Fam& f) {
     Model m = famModel(f, idx);
     Ref r = useEnum ? enumerate(m) : forwardLD(m);
     tagModel(c, m, r);
+    // self-check of the derivative reference on a regular sub-grid: the jets of the enumerated likelihood are the limit of central
+    // differences of the enumerated log-likelihood (h = 1e-3 in long double: truncation <= ~1e-6 per site, rounding ~1e-10)
+    if (useEnum && r.positive && idx % 97 == 0) {
+      Model mp = m, mm = m; const double h = 1e-3; mp.theta = m.theta + h; mm.theta = m.theta - h;
+      Ref rp = enumerate(mp), rm = enumerate(mm);
+      if (rp.positive && rm.positive) {
+        LD hh = (LD)mp.theta - (LD)mm.theta; LD f1 = (rp.logL - rm.logL) / hh, f2 = (rp.logL - 2 * r.logL + rm.logL) / (hh * hh / 4);
+        double tolfd = 1e-4 * (double)m.L;
+        if (!(std::fabs((double)(f1 - r.d1)) <= tolfd) || !(std::fabs((double)(f2 - r.d2)) <= tolfd))
+          c.fail("HARNESS|reference-jets-disagree-with-finite-differences", describe(m) + ": jets " + num((double)r.d1) + ", " + num((double)r.d2) + " finite differences " + num((double)f1) + ", " + num((double)f2));
+        c.tag("reference-derivatives-cross-checked-by-finite-differences");
+      }
+    }
     std::vector<size_t> chunks;
     if (f.kind == "chunk1") chunks = {1};
     else if (f.L <= 12) { for (size_t ch = 2; ch <= f.L + 1; ++ch) chunks.push_back(ch); }
@@ -627,7 +640,7 @@ int main(int argc, char** argv) {
 
   for (auto& f : fams) if (!small(f)) famSpace(R, f);
 
-  R.expectSeen("zero-transition-entry"); R.expectSeen("zero-emission-entry"); R.expectSeen("emission-1e-200"); R.expectSeen("with-break-points"); R.expectSeen("possible-data");
+  R.expectSeen("zero-transition-entry"); R.expectSeen("zero-emission-entry"); R.expectSeen("emission-1e-200"); R.expectSeen("with-break-points"); R.expectSeen("possible-data"); R.expectSeen("reference-derivatives-cross-checked-by-finite-differences");
   R.note("segments start from pi.P as the code does (pi supplied by the harness is stationary, so pi.P = pi up to rounding); break points are ascending indices in 1..L-1 naming the first site of a new segment");
   R.note("data of probability 0 (all paths impossible) are recorded as an outcome class; only a finite answer is judged wrong there, posteriors and derivatives are not judged");
   R.note("posteriors, per-site likelihoods, derivatives and re-query answers of an object are judged only when its log-likelihood is right (they are downstream of the same forward pass)");
